@@ -514,12 +514,12 @@ def fixed_cfgs(ctx):
 UNIFORM_QUICK = [(2, 1), (2, 2), (3, 2), (3, 3), (4, 3), (4, 4), (8, 5)]
 UNIFORM_THOROUGH = UNIFORM_QUICK + [(5, 4), (5, 5), (8, 8)]
 FAST_QUICK = [(3, 3, 4, 8), (4, 3, 4, 8), (4, 4, 4, 8), (8, 5, 4, 16)]
-FAST_THOROUGH = FAST_QUICK + [(2, 2, 3, 8), (3, 2, 3, 8), (5, 5, 4, 16), (8, 8, 4, 16), (16, 12, 4, 16)]
+FAST_THOROUGH = FAST_QUICK + [(2, 2, 3, 8), (3, 2, 3, 8), (5, 5, 4, 16), (8, 8, 4, 16), (16, 12, 3, 16)]
 
 
 # (B, P, MaxLen = n-1, MaxVal = 2^m) for step-CDF leaky quantisation
 LEAKY_QUICK = [(3, 3, 3, 4), (4, 3, 3, 4), (4, 4, 4, 4), (8, 5, 4, 4)]
-LEAKY_THOROUGH = LEAKY_QUICK + [(2, 2, 2, 4), (3, 2, 2, 4), (5, 5, 5, 8), (8, 8, 5, 8), (16, 12, 5, 8)]
+LEAKY_THOROUGH = LEAKY_QUICK + [(2, 2, 2, 4), (3, 2, 2, 4), (5, 5, 5, 8), (8, 8, 5, 8), (16, 12, 4, 8)]
 
 
 # large supports (B, P, N = support size, 2^m): the quantile search has to cross the whole symbol type
